@@ -7,6 +7,7 @@ CONSTANTS
   WithKeepAlive = FALSE
   BugKaNoCtxCheck = FALSE
   BugKaNoDiscCheck = FALSE
+  BugReaderAfterWrite = FALSE
 CHECK_DEADLOCK FALSE
 INVARIANTS ActiveAtMostOnce ActiveOnlyAfterAccept ClosedAtMostOnce ClosedHasError DisconnectedAtMostOnce
   ClosedExactlyOnceIfNoDisconnect DisconnectedExactlyOnce ClosedErrIsErr ErrNilWhileHealthy ErrNilAfterGraceful DoneIffEnded
